@@ -1,3 +1,6 @@
+mod c37;
+mod c38;
+mod c39;
 mod c40;
 mod c41;
 mod c42;
@@ -5,5 +8,5 @@ mod c44;
 mod util;
 
 fn main() {
-    vmon::run_main(&[("C40", c40::run), ("C41", c41::run), ("C42", c42::run), ("C44", c44::run)]);
+    vmon::run_main(&[("C37", c37::run), ("C38", c38::run), ("C39", c39::run), ("C40", c40::run), ("C41", c41::run), ("C42", c42::run), ("C44", c44::run)]);
 }
